@@ -13,6 +13,7 @@ correspondence stream (every truncation offset × chunk schedules × buffer size
 import IclModel.Lemmas.Scanner
 import IclModel.Lemmas.Framing
 import IclModel.Gen.Split
+import IclModel.Tree
 namespace Icl.C16
 open Icl
 
@@ -107,5 +108,85 @@ theorem cut_is_error (d : Bytes) (hne : d ≠ [])
   · have : ¬ (4 + be32Val (d.take 4) ≤ d.length) := by omega
     have hgt : 4 + be32Val (d.take 4) > d.length := by omega
     simp [h0, h4, this, hgt]
+
+/-! ### newline framing: `bufio.ScanLines` -/
+
+theorem idxOf?_lt (d : Bytes) (a : UInt8) (i : Nat) (h : d.idxOf? a = some i) : i < d.length := by
+  unfold List.idxOf? at h
+  exact (List.findIdx?_eq_some_iff_getElem.1 h).1
+
+theorem idxOf?_append (d e : Bytes) (a : UInt8) (i : Nat) (h : d.idxOf? a = some i) :
+    (d ++ e).idxOf? a = some i := by
+  unfold List.idxOf? at h ⊢
+  rw [List.findIdx?_append, h]
+  rfl
+
+/-- the model of `bufio.ScanLines` (Scanner.lean) satisfies the contract the chunk-independence theorem
+needs: a line found in the bytes seen so far is found identically when more bytes have arrived -/
+theorem scanLines_ok : SplitOK scanLinesSplit where
+  stable_tok := by
+    intro d e adv t h
+    simp only [scanLinesSplit, Bool.false_and, Bool.false_eq_true, if_false] at h ⊢
+    cases hi : d.idxOf? 0x0A with
+    | none => simp [hi] at h
+    | some i =>
+      simp only [hi, Prod.mk.injEq, Option.some.injEq, and_true] at h
+      have hlt := idxOf?_lt d 0x0A i hi
+      rw [idxOf?_append d e 0x0A i hi]
+      simp only [Prod.mk.injEq, Option.some.injEq, and_true]
+      refine ⟨h.1, ?_⟩
+      rw [List.take_append_of_le_length (by omega)]
+      exact h.2
+  stable_err := by
+    intro d e adv tok er h
+    simp only [scanLinesSplit, Bool.false_and, Bool.false_eq_true, if_false] at h
+    split at h <;> simp at h
+  stable_skip := by
+    intro d e adv h0 h
+    simp only [scanLinesSplit, Bool.false_and, Bool.false_eq_true, if_false] at h
+    split at h
+    · simp at h
+    · simp at h; omega
+  adv_le := by
+    intro d b adv tok h
+    simp only [scanLinesSplit] at h
+    split at h
+    · simp at h; omega
+    · split at h
+      · rename_i i hi
+        simp only [Prod.mk.injEq] at h
+        have := idxOf?_lt d 0x0A i hi
+        omega
+      · split at h
+        · simp at h; omega
+        · simp at h; omega
+  tok_progress := by
+    intro d adv t h
+    simp only [scanLinesSplit, Bool.false_and, Bool.false_eq_true, if_false] at h
+    split at h
+    · simp at h; omega
+    · simp at h
+
+/-- **C16 for newline framing**: any delivery schedule, any buffer bound -/
+theorem C16_nl_chunk_independent (x : Bytes) (m1 m2 : Nat) (s1 s2 : List Nat)
+    (h1 : (scan scanLinesSplit m1 s1 [] x).2 ≠ some .tooLong) (h2 : (scan scanLinesSplit m2 s2 [] x).2 ≠ some .tooLong) :
+    scan scanLinesSplit m1 s1 [] x = scan scanLinesSplit m2 s2 [] x :=
+  chunk_independent scanLinesSplit scanLines_ok x m1 m2 s1 s2 h1 h2
+
+/-- **C16 at the level of the whole read**: `Reader.Read` over a stream delivered by any schedule
+with any buffer bound returns the same file and the same error, in both framings, unless the buffer
+bound is hit (`readFileScan`, IclModel/Tree.lean, feeds the scanner's tokens to the record loop) -/
+theorem C16_read_independent (m : Model) (e : Enc) (x : Bytes) (m1 m2 : Nat) (s1 s2 : List Nat)
+    (h1 : (scan (if e.lp then Gen.splitLP else scanLinesSplit) m1 s1 [] x).2 ≠ some .tooLong)
+    (h2 : (scan (if e.lp then Gen.splitLP else scanLinesSplit) m2 s2 [] x).2 ≠ some .tooLong) :
+    readFileScan m e Gen.splitLP m1 s1 x = readFileScan m e Gen.splitLP m2 s2 x := by
+  unfold readFileScan
+  cases hlp : e.lp with
+  | true =>
+    simp only [hlp, if_true] at h1 h2 ⊢
+    rw [C16_lp_chunk_independent x m1 m2 s1 s2 h1 h2]
+  | false =>
+    simp only [hlp, Bool.false_eq_true, if_false] at h1 h2 ⊢
+    rw [C16_nl_chunk_independent x m1 m2 s1 s2 h1 h2]
 
 end Icl.C16
